@@ -303,12 +303,16 @@ def events(ctx, s):
     """toggle / helper calls of make_move_new with canonical arguments and reaching conditions"""
     an = ctx.an()
     ev = []
-    for c in s.calls:
-        if c['callee'] in ('board::Board::xor', 'board::Board::set_ep', 'board::Board::remove_ep', 'board::Board::remove_my_castle_rights',
-                           'board::Board::remove_their_castle_rights', 'board::Board::remove_castle_rights', 'board::Board::add_castle_rights',
-                           'board::Board::add_my_castle_rights', 'board::Board::add_their_castle_rights'):
-            args = [bb(a, an) for a in c['argvals'][1:]]
-            ev.append(dict(call=c, name=c['callee'].rsplit('::', 1)[1], args=args, dnf=dnf(s, c['blk']), obj=c['argvals'][0]))
+    TARGETS = ('board::Board::xor', 'board::Board::set_ep', 'board::Board::remove_ep', 'board::Board::remove_my_castle_rights',
+               'board::Board::remove_their_castle_rights', 'board::Board::remove_castle_rights', 'board::Board::add_castle_rights',
+               'board::Board::add_my_castle_rights', 'board::Board::add_their_castle_rights')
+    # looking through private helpers (`fn toggle_castle_rook(&mut self, ..)`): their toggles count as toggles of the caller
+    for c in expanded_calls(ctx, s, lambda c_: c_['callee'] in TARGETS):
+        if c['callee'] is None:
+            ev.append(dict(call=c, name='?helper', args=[], dnf=dnf(s, c['blk']), obj=None))
+            continue
+        args = [bb(a, an) for a in c['argvals'][1:]]
+        ev.append(dict(call=c, name=c['callee'].rsplit('::', 1)[1], args=args, dnf=dnf(s, c['blk']), obj=c['argvals'][0]))
     return ev
 
 
@@ -329,6 +333,21 @@ def lit_kinds(ctx, s, conj, M, SRC, DST):
             continue
         if c[0] == 'discr':
             x = c[1]
+            if x == M:
+                # `match moved { Piece::Knight => .., Piece::Pawn => .., _ => .. }`: the taken arm as moved == / != facts
+                f_ = ctx.facts()
+                names = {f_.enum_discr('piece::Piece', nme): nme for nme in ('Pawn', 'Knight', 'Bishop', 'Rook', 'Queen', 'King')}
+                vals = g['vals']
+                if 'otherwise' in vals:
+                    for v in g['all']:
+                        if v != 'otherwise' and v in names:
+                            out[('moved', names[v])] = False
+                elif len(vals) == 1 and vals[0] in names:
+                    out[('moved', names[vals[0]])] = True
+                    for v, nme in names.items():
+                        if v != vals[0]:
+                            out.setdefault(('moved', nme), False)
+                continue
             if match(call('board::Board::piece_on', ('param', 1), DST), x) is not None:
                 out['capture'] = (g['vals'] == [1])
                 continue
